@@ -107,4 +107,18 @@ def streamOkB (g : Geom) : Window → List Ev → Bool
   | _, [] => true
   | w, e :: es => evOkB g w e && streamOkB g (stepW g w e) es
 
+/-! ## the list of resident tables: no two share a byte -/
+
+/-- tables as (name, address, size) -/
+def shareByte (a b : Nat × Nat × Nat) : Bool :=
+  decide (max a.2.1 b.2.1 < min (a.2.1 + a.2.2) (b.2.1 + b.2.2))
+
+/-- first pair of tables that share a byte -/
+def tablesOverlap : List (Nat × Nat × Nat) → Option (Nat × Nat)
+  | [] => none
+  | t :: rest =>
+    match rest.find? (shareByte t) with
+    | some u => some (t.1, u.1)
+    | none => tablesOverlap rest
+
 end VelaVerif.Spec.LutWindow
